@@ -43,8 +43,14 @@ const (
 	vPkB = core.PubKey("0xbbbbbbbbbbbbbbbbbbbbbbbbbbbbbbbbbbbbbbbbbbbbbbbbbbbbbbbbbbbbbbbbbbbbbbbbbbbbbbbbbbbbbbbbbbbbbbbb")
 )
 
-// two duties x two validators = four keys
+// key space 0: two duties x two validators = four keys; key space 1: see vKey
+var vKeyspace int
+
 func vKey(i int) memDBKey {
+	if vKeyspace == 1 {
+		// one sync-contribution duty, one validator, four subcommittees: keys that differ in the subcommittee index only
+		return memDBKey{duty: core.Duty{Slot: 1, Type: core.DutySyncContribution}, pubKey: vPkA, subcommIdx: core.SubcommitteeIndex(i)}
+	}
 	d := core.Duty{Slot: uint64(1 + i/2), Type: core.DutyAttester}
 	pk := vPkA
 	if i%2 == 1 {
@@ -65,6 +71,7 @@ const (
 // actor loop one at a time; after every event every reader state is compared with a ghost store.
 func VerifC17V1() {
 	k := vrt.Param("k")
+	vKeyspace = vrt.Param("keyspace")
 	vrt.Unwind(k + 3)
 	dl := &vDeadliner{ch: make(chan core.Duty, 1)}
 	db := NewMemDB(dl)
@@ -157,12 +164,16 @@ func VerifC17V1() {
 			db.queries <- readQuery{memDBKey: vKey4(3), response: resp[i], cancel: cnl[i]}
 		case evExpire:
 			dslot := 1 + (key[i] / 2)
+			dtype := core.DutyAttester
+			if vKeyspace == 1 {
+				dslot, dtype = 1, core.DutySyncContribution
+			}
 			for q := 0; q < 4; q++ {
-				if 1+q/2 == dslot {
+				if vKeyspace == 1 || 1+q/2 == dslot {
 					has[q] = false
 				}
 			}
-			dl.ch <- core.Duty{Slot: uint64(dslot), Type: core.DutyAttester}
+			dl.ch <- core.Duty{Slot: uint64(dslot), Type: dtype}
 		}
 	})
 
@@ -252,6 +263,84 @@ func VerifC17V2Wake() {
 		} else {
 			vrt.Assert("reader B got its key's value", errB == nil && okB && b.Root == rb)
 		}
+	}
+	vrt.Reach("end")
+}
+
+func init() {
+	VerifHarnesses["VerifC17V2Mixed"] = VerifC17V2Mixed
+	VerifHarnesses["VerifC17V2Partial"] = VerifC17V2Partial
+}
+
+// VerifC17V2Mixed: key A is already stored; a reader blocks on key B; one Store carries A again (identical) and B (new):
+// the reader must return with B's value whatever the iteration order of the set.
+func VerifC17V2Mixed() {
+	dl := &vDeadliner{ch: make(chan core.Duty, 1)}
+	db := NewMemDBV2(dl)
+	ctx := context.Background()
+	duty := core.Duty{Slot: 1, Type: core.DutyAttester}
+	ra, rb := vrt.Byte("rootA"), vrt.Byte("rootB")
+	vrt.Assert("first store succeeds", db.Store(ctx, duty, core.SignedDataSet{vPkA: vSigned{ra, 1}}) == nil)
+	var got core.SignedData
+	var err error
+	done := false
+	vrt.Par1(
+		func() { got, err = db.Await(ctx, duty, vPkB, 0); done = true },
+		func() {
+			errS := db.Store(ctx, duty, core.SignedDataSet{vPkA: vSigned{ra, 1}, vPkB: vSigned{rb, 2}})
+			vrt.Assert("store of an identical and a new entry succeeds", errS == nil)
+		},
+	)
+	vrt.Assert("the blocked reader returned after the store that provided its key", done)
+	if done {
+		b, ok := got.(vSigned)
+		vrt.Assert("the reader got its key's value", err == nil && ok && b.Root == rb && b.Sig == 2)
+	}
+	vrt.Reach("end")
+}
+
+// VerifC17V2Partial: a Store whose set has a good entry and an entry the store must refuse (a conflicting re-store, or -
+// "wrongtype"=1 - data of the wrong type for a sync-committee aggregator duty): the good entry's reader must not be left
+// waiting if the good entry was stored.
+func VerifC17V2Partial() {
+	dl := &vDeadliner{ch: make(chan core.Duty, 1)}
+	db := NewMemDBV2(dl)
+	ctx := context.Background()
+	wrongType := vrt.Param("wrongtype") == 1
+	duty := core.Duty{Slot: 1, Type: core.DutyAttester}
+	var good, bad core.SignedData = vSigned{vrt.Byte("rootA"), 1}, vSigned{vrt.Byte("rootB"), 2}
+	var sub core.SubcommitteeIndex
+	if wrongType {
+		duty = core.Duty{Slot: 1, Type: core.DutySyncContribution}
+		sel := core.SyncCommitteeSelection{}
+		sel.SubcommitteeIndex = 1
+		good, sub = sel, 1
+	} else {
+		// B is already stored with other data: the re-store of B conflicts
+		vrt.Assert("pre-store succeeds", db.Store(ctx, duty, core.SignedDataSet{vPkB: vSigned{77, 9}}) == nil)
+	}
+	var err error
+	done := false
+	var errS error
+	stored := false
+	rctx, cancel := context.WithCancel(ctx)
+	vrt.Par1(
+		func() { _, err = db.Await(rctx, duty, vPkA, sub); done = true },
+		func() {
+			errS = db.Store(ctx, duty, core.SignedDataSet{vPkA: good, vPkB: bad})
+			db.RLock()
+			_, stored = db.data[memDBKey{duty: duty, pubKey: vPkA, subcommIdx: sub}]
+			db.RUnlock()
+			if !stored {
+				cancel() // the refused entry came first: nothing was stored for the reader, it may give up
+			}
+		},
+	)
+	cancel()
+	vrt.Assert("the store reports the refused entry", errS != nil)
+	if stored {
+		vrt.Assert("a reader whose key was stored by a partly refused set is not left waiting", done && err == nil)
+		vrt.Reach("good entry stored before the refusal")
 	}
 	vrt.Reach("end")
 }
